@@ -1,64 +1,62 @@
 (* Findings.v — the dependency hypothesis of the refinement theorem cannot be dropped:
-   witnesses D3 (element read through a computed selector, written through a constant one)
-   and D2 (method reading an assigned field through its receiver), run on the IMPL-MODEL.
-   The same scenarios fail on the real engine (tools/harness/regress.go, known_findings.json). *)
+   witness D2 (a method reads an assigned field through its receiver), run on the IMPL-MODEL.
+   The same scenario fails on the real engine (tools/harness/regress.go, known_findings.json).
+   D3 (an element read through a computed selector and written through a constant one) is a second
+   family of witnesses; it is replayed by the harness as well. *)
 From Grule Require Import Base Values Syntax EngineGen EngineAbs Facts Eval Fresh Engine Methods
      EngineProofs StateTrack Refinement RefineTheorems.
 Open Scope Z_scope.
 
-Definition nometh : list (string * fval) -> string -> list val -> res (option val * list (string * fval)) := fun _ _ _ => Err.
-Definition nopanic : string -> list val -> bool := fun _ _ => false.
-Definition nomut : string -> bool := fun _ => false.
+Definition nometh := fact_meth.
+Definition nopanic := fact_panics_inside.
+Definition nomut : string -> bool := fun f => String.eqb f "Inc" || String.eqb f "AddTo".
 
-Definition d3_rules : list rule :=
-  [{| rname := "R0"%string; rdesc := "d3"%string; rsal := 0;
-      rwhen := EBin OLT (EAtom (AVar (VSel (VMember (VName "F"%string) "Arr"%string) (EAtom (AVar (VMember (VName "F"%string) "I"%string))))))
-                        (EAtom (AConst (CInt 3)));
-      rthen := [SAssign (VSel (VMember (VName "F"%string) "Arr"%string) (EAtom (AConst (CInt 0)))) AsSet
-                        (EBin OAdd (EAtom (AVar (VSel (VMember (VName "F"%string) "Arr"%string) (EAtom (AConst (CInt 0))))))
-                                   (EAtom (AConst (CInt 1))))] |}].
-Definition d3_facts : facts :=
-  [("F"%string, FPtr (Some (FStruct [("I"%string, FV (VInt Iw 0));
-                                       ("Arr"%string, FSlice [FV (VInt I64 0); FV (VInt I64 1); FV (VInt I64 2)])])))].
-Definition d3_entries : list entry :=
+Definition d2_rules : list rule :=
+  [{| rname := "R0"%string; rdesc := "d2"%string; rsal := 0;
+      rwhen := EBin OLT (EAtom (AMethod (AVar (VName "F"%string)) "GetI64"%string ENil)) (EAtom (AConst (CInt 3)));
+      rthen := [SAssign (VMember (VName "F"%string) "I64"%string) AsSet
+                        (EBin OAdd (EAtom (AVar (VMember (VName "F"%string) "I64"%string))) (EAtom (AConst (CInt 1))))] |}].
+Definition d2_facts : facts :=
+  [("F"%string, FPtr (Some (FStruct [("I64"%string, FV (VInt I64 0))])))].
+Definition d2_entries : list entry :=
   [{| e_key := "R0"%string; e_name := "R0"%string; e_sal := 0; e_retracted := false; e_deleted := false |}].
-Definition d3_cfg : config := {| c_max := 6; c_reterr := false; c_cancel := None |}.
+Definition d2_cfg : config := {| c_max := 6; c_reterr := false; c_cancel := None |}.
 
-Definition d3_run :=
-  execute estate (rule_cond (vars_rules d3_rules) nometh nopanic d3_rules) (rule_act (vars_rules d3_rules) nometh nopanic d3_rules)
-          reset_all 10%nat d3_cfg (fun _ l => l) (init_estate d3_facts) d3_entries.
-Definition d3_recs : list cycle_rec := Eval vm_compute in snd (fst d3_run).
+Definition d2_run :=
+  execute estate (rule_cond (vars_rules d2_rules) nometh nopanic d2_rules) (rule_act (vars_rules d2_rules) nometh nopanic d2_rules)
+          reset_all 10%nat d2_cfg (fun _ l => l) (init_estate d2_facts) d2_entries.
+Definition d2_recs : list cycle_rec := Eval vm_compute in snd (fst d2_run).
 
-Lemma d3_rules_ok : rules_ok d3_rules nomut.
+Lemma d2_rules_ok : rules_ok d2_rules nomut.
 Proof. intros r [<-|[]]. split; [reflexivity|]. repeat constructor. Qed.
 
-Definition d3_pre : list cycle_rec := Eval vm_compute in firstn 3 d3_recs.
-Definition d3_post : list cycle_rec := Eval vm_compute in skipn 4 d3_recs.
-Definition d3_r : cycle_rec :=
-  Eval vm_compute in nth 3 d3_recs {| cr_begin := 0; cr_evals := []; cr_exec := None; cr_started := false; cr_fx := []; cr_act_chk := 0 |}.
-Definition d3_facts_then : facts := Eval vm_compute in facts_after d3_rules nometh d3_facts d3_pre.
+Definition d2_pre : list cycle_rec := Eval vm_compute in firstn 3 d2_recs.
+Definition d2_post : list cycle_rec := Eval vm_compute in skipn 4 d2_recs.
+Definition d2_r : cycle_rec :=
+  Eval vm_compute in nth 3 d2_recs {| cr_begin := 0; cr_evals := []; cr_exec := None; cr_started := false; cr_fx := []; cr_act_chk := 0 |}.
+Definition d2_facts_then : facts := Eval vm_compute in facts_after d2_rules nometh d2_facts d2_pre.
 
 (* C01 as stated in RefineTheorems.v, but without the dependency hypothesis, is false of the faithful model:
    the fourth cycle fires R0 although its condition, evaluated from scratch on the facts of that moment, is false *)
 Theorem C01_without_dependency_hypothesis_refuted :
-  rules_ok d3_rules nomut /\ NoDup (map e_key d3_entries) /\
-  snd (fst d3_run) = d3_recs /\
-  exists pre r post n k, d3_recs = (pre ++ r :: post)%list /\ cr_exec r = Some (n, k) /\ cr_started r = true /\
-    when_from_scratch d3_rules nometh (facts_after d3_rules nometh d3_facts pre) k = CFalse.
+  rules_ok d2_rules nomut /\ NoDup (map e_key d2_entries) /\
+  snd (fst d2_run) = d2_recs /\
+  exists pre r post n k, d2_recs = (pre ++ r :: post)%list /\ cr_exec r = Some (n, k) /\ cr_started r = true /\
+    when_from_scratch d2_rules nometh (facts_after d2_rules nometh d2_facts pre) k = CFalse.
 Proof.
-  split; [exact d3_rules_ok|]. split; [repeat constructor; simpl; tauto|].
+  split; [exact d2_rules_ok|]. split; [repeat constructor; simpl; tauto|].
   split; [vm_compute; reflexivity|].
-  exists d3_pre, d3_r, d3_post, 4, "R0"%string.
+  exists d2_pre, d2_r, d2_post, 4, "R0"%string.
   split; [reflexivity|]. split; [reflexivity|]. split; [reflexivity|].
-  change (facts_after d3_rules nometh d3_facts d3_pre) with d3_facts_then.
+  change (facts_after d2_rules nometh d2_facts d2_pre) with d2_facts_then.
   vm_compute. reflexivity.
 Qed.
 
-Definition d3_sf := Eval vm_compute in fst (fst d3_run).
-Definition d3_o := Eval vm_compute in snd d3_run.
-Lemma d3_run_eq : d3_run = (d3_sf, d3_recs, d3_o).
+Definition d2_sf := Eval vm_compute in fst (fst d2_run).
+Definition d2_o := Eval vm_compute in snd d2_run.
+Lemma d2_run_eq : d2_run = (d2_sf, d2_recs, d2_o).
 Proof. vm_compute. reflexivity. Qed.
 
-(* Together with C01_proved (RefineTheorems.v) this shows that d3_rules does not satisfy the dependency
+(* Together with C01_proved (RefineTheorems.v) this shows that d2_rules does not satisfy the dependency
    hypothesis: the hypothesis is a genuine restriction on rule sets, and it is exactly the recorded
    findings D2/D3 that fall outside it. *)
